@@ -85,3 +85,15 @@ Proof.
   intros. unfold sky2image_direct, src_inter2pix, is_sip. cbv zeta.
   destruct (h_proj (w_hdr w)); destruct (distort && has_dist w); cbn [fst snd]; reflexivity.
 Qed.
+
+(* the rectangle over which the inverse polynomial is fitted is the image: pixel offsets
+   [1 - CRPIX1, NAXIS1 - CRPIX1] x [1 - CRPIX2, NAXIS2 - CRPIX2] for TPV (InvertPVDistortion), pixels
+   [1, NAXIS1] x [1, NAXIS2] for SIP (InvertSipDistortion): which naxis / crpix index feeds which axis *)
+Definition image_rect (h : header) : (R * R) * (R * R) := ((1, h_naxis1 h), (1, h_naxis2 h)).
+Definition image_rect_offsets (h : header) : (R * R) * (R * R) :=
+  ((1 - h_crpix1 h, h_naxis1 h - h_crpix1 h), (1 - h_crpix2 h, h_naxis2 h - h_crpix2 h)).
+
+Lemma fit_ranges_are_the_image : forall h,
+  src_pv_fit_ranges (h_naxis1 h) (h_naxis2 h) (h_crpix1 h) (h_crpix2 h) = image_rect_offsets h /\
+  src_sip_fit_ranges (h_naxis1 h) (h_naxis2 h) (h_crpix1 h) (h_crpix2 h) = image_rect h.
+Proof. intros. split; reflexivity. Qed.
